@@ -65,6 +65,25 @@ local function guard(k, mode)
   end})
 end
 
+-- a to-be-closed guard declared in an INNER frame (inside a pcall / a nested function) of thread me;
+-- its tag is <me>.<n>, n counting the inner guards of that thread
+local gseq = {}
+local function inner(me)
+  gseq[me] = (gseq[me] or 0) + 1
+  local tag = me .. "." .. gseq[me]
+  return setmetatable({}, {__close = function(_, e) emit("T", tag, e) end})
+end
+
+-- what every thread can observe before each action: the status of every thread (the main thread's too),
+-- who is running, whether it can yield
+local function observe(me)
+  local function st(k) if co[k] then return coroutine.status(co[k]) else return "-" end end
+  local r, ismain = coroutine.running()
+  local rk = -1
+  for k = 0, 3 do if co[k] == r then rk = k end end
+  emit("O", me, st(0), st(1), st(2), st(3), rk, ismain, coroutine.isyieldable())
+end
+
 local function body(k, mode)
   return function(...)
     co[k] = coroutine.running()
@@ -76,6 +95,7 @@ end
 
 run = function(me)
   while true do
+    observe(me)
     local op, k, n, a, b = nextop()
     if op == nil then
       if me == 0 then return end
@@ -100,6 +120,37 @@ run = function(me)
       end
     elseif op == "py" then
       emit("P", me, pcall(coroutine.yield, vals(n, a, b)))
+    elseif op == "pyt" then
+      -- yield inside a pcall whose frame holds a to-be-closed guard
+      if me == 0 then
+        emit("P", me, pcall(coroutine.yield, vals(n, a, b)))
+      else
+        -- (every other inner guard of a thread sits in an xpcall frame instead of a pcall frame)
+        local f = function(...) local g <close> = inner(me); return coroutine.yield(...) end
+        if (gseq[me] or 0) % 2 == 0 then
+          emit("P", me, pcall(f, vals(n, a, b)))
+        else
+          emit("P", me, xpcall(f, function(m) return m end, vals(n, a, b)))
+        end
+      end
+    elseif op == "fy" then
+      -- yield inside a nested function frame that holds a to-be-closed guard
+      if me == 0 then
+        emit("Y", 0, pcall(coroutine.yield, vals(n, a, b)))
+      else
+        emit("Y", me, (function(...) local g <close> = inner(me); return coroutine.yield(...) end)(vals(n, a, b)))
+      end
+    elseif op == "pge" then
+      -- error under a guard, caught by pcall: the guard is closed with the error
+      local f = function() local g <close> = inner(me); error(a, 0) end
+      if (gseq[me] or 0) % 2 == 0 then
+        emit("PG", me, pcall(f))
+      else
+        emit("PG", me, xpcall(f, function(m) return m end))
+      end
+    elseif op == "fe" then
+      -- uncaught error under a guard in a nested frame
+      if me ~= 0 then (function() local g <close> = inner(me); error(a, 0) end)() end
     elseif op == "ret" then
       if me ~= 0 then return vals(n, a, b) end
     elseif op == "e" then
@@ -119,10 +170,11 @@ run = function(me)
 end
 
 local function reset()
-  co, wrapf, created = {}, {}, {}
+  co, wrapf, created, gseq = {}, {}, {}, {}
 end
 
 local function main(limit, memlimit)
+  co[0] = coroutine.running()
   if limit > 0 or memlimit > 0 then
     local kill = {}
     if limit > 0 then kill.cpu = limit end
@@ -143,14 +195,14 @@ end
 -- after the script: start never-started wrap coroutines (so that they have a handle), then close
 -- every suspended coroutine
 local function cleanup()
-  mute(true)
+  mute(1)   -- only the handler events (T, H) are recorded, in the cleanup section
   for k = 1, 3 do
     if created[k] and wrapf[k] and not co[k] then pcall(wrapf[k]) end
   end
   for k = 1, 3 do
     if created[k] and co[k] and coroutine.status(co[k]) == "suspended" then pcall(coroutine.close, co[k]) end
   end
-  mute(false)
+  mute(0)
 end
 
 return main, final, cleanup, reset
@@ -201,7 +253,8 @@ func parseAction(tok string) (action, error) {
 		}
 	}
 	switch {
-	case head == "y" || head == "py" || head == "ret" || head == "e" || head == "pe" || head == "iy" || head == "spin":
+	case head == "y" || head == "py" || head == "ret" || head == "e" || head == "pe" || head == "iy" || head == "spin" ||
+		head == "pyt" || head == "fy" || head == "pge" || head == "fe":
 		a.op = head
 	case len(head) >= 2 && strings.ContainsRune("cwrxs", rune(head[0])) && head[1] >= '1' && head[1] <= '3':
 		a.op = head[:1]
@@ -230,7 +283,8 @@ type env struct {
 	script  []action
 	pc      int
 	events  []string
-	muted   bool
+	cevents []string // handler events during the final cleanup
+	muted   int      // 0: record; 1: cleanup phase (record T/H into cevents)
 	used    int
 }
 
@@ -258,7 +312,23 @@ func canonEvent(tag string, args []rt.Value) string {
 	case "S":
 		parts = append(parts, encVal(args[0]), string(args[1].AsString()))
 		return strings.Join(parts, " ")
-	case "R", "W", "C", "PE", "P", "H":
+	case "T":
+		// T <guard tag> <error value>: the body guard's tag is the coroutine number, inner guards are "<k>.<n>"
+		tag0 := encVal(args[0])
+		if args[0].Type() == rt.StringType {
+			tag0 = string(args[0].AsString())
+		}
+		return "T " + tag0 + " " + encVal(args[1])
+	case "O":
+		for _, a := range args {
+			if a.Type() == rt.StringType {
+				parts = append(parts, string(a.AsString()))
+			} else {
+				parts = append(parts, encVal(a))
+			}
+		}
+		return strings.Join(parts, " ")
+	case "R", "W", "C", "PE", "P", "H", "PG":
 		// k, ok, ...  — (false, string) is a refusal with a message; messages are free text
 		if len(args) >= 2 && args[1].Type() == rt.StringType {
 			return tag + " " + encVal(args[0]) + " " + string(args[1].AsString()) // "nohandle"
@@ -314,15 +384,17 @@ func newEnv() *env {
 		return next, nil
 	}, "nextop", 0, false)
 	emit := rt.NewGoFunction(func(t *rt.Thread, c *rt.GoCont) (rt.Cont, error) {
-		if !e.muted {
-			args := append([]rt.Value{c.Arg(0)}, c.Etc()...)
-			tag := string(args[0].AsString())
+		args := append([]rt.Value{c.Arg(0)}, c.Etc()...)
+		tag := string(args[0].AsString())
+		if e.muted == 0 {
 			e.events = append(e.events, canonEvent(tag, args[1:]))
+		} else if tag == "T" || tag == "H" {
+			e.cevents = append(e.cevents, canonEvent(tag, args[1:]))
 		}
 		return c.Next(), nil
 	}, "emit", 1, true)
 	mute := rt.NewGoFunction(func(t *rt.Thread, c *rt.GoCont) (rt.Cont, error) {
-		e.muted = rt.Truth(c.Arg(0))
+		e.muted = int(c.Arg(0).AsInt())
 		return c.Next(), nil
 	}, "mute", 1, false)
 	all := rt.ComplyCpuSafe | rt.ComplyMemSafe | rt.ComplyTimeSafe | rt.ComplyIoSafe
@@ -395,7 +467,18 @@ func (e *env) watched(f rt.Value, args ...rt.Value) (r result, wedged string) {
 		class, res, _ := hlib.PCall(e.r, f, args...)
 		done <- result{class, res}
 	}()
-	timeout := time.After(20 * time.Second)
+	// fast path: almost every call returns within a millisecond; no timers then
+	for i := 0; i < 2000; i++ {
+		select {
+		case r = <-done:
+			return r, ""
+		default:
+			runtime.Gosched()
+		}
+	}
+	timer := time.NewTimer(20 * time.Second)
+	defer timer.Stop()
+	timeout := timer.C
 	tick := time.NewTicker(150 * time.Millisecond)
 	defer tick.Stop()
 	blocked := 0
@@ -419,13 +502,13 @@ func (e *env) watched(f rt.Value, args ...rt.Value) (r result, wedged string) {
 }
 
 func (e *env) runScript(script []action, expectSusp func(final []string) int) (line string, broken bool) {
-	e.script, e.pc, e.events, e.muted = script, 0, nil, false
+	e.script, e.pc, e.events, e.cevents, e.muted = script, 0, nil, nil, 0
 	hlib.PCall(e.r, e.reset)
 	before := runtime.NumGoroutine()
 	limit, mem := int64(0), int64(0)
 	for _, a := range script {
 		if a.op == "spin" {
-			limit = 60000
+			limit = 20000
 		}
 	}
 	if memctx {
@@ -474,14 +557,15 @@ func (e *env) runScript(script []action, expectSusp func(final []string) int) (l
 	// pcall pushes a frame on the runtime-wide context stack: a coroutine left suspended inside a pcall leaves
 	// that stack unbalanced, and an escaped kill leaves the runtime inside a dead context — do not reuse the runtime
 	for _, a := range script {
-		if a.op == "py" {
+		if a.op == "py" || a.op == "pyt" {
 			broken = true
 		}
 	}
 	if outcome != "done" && outcome != "killed" {
 		broken = true
 	}
-	return fmt.Sprintf("%s => %s | F %s | G %d %d | %s", strings.Join(toks, " "), ev, strings.Join(finals, " "), d1, d2, outcome), broken
+	return fmt.Sprintf("%s => %s | F %s | G %d %d | %s | X %s", strings.Join(toks, " "), ev, strings.Join(finals, " "), d1, d2, outcome,
+		strings.Join(e.cevents, " ; ")), broken
 }
 
 func countSuspended(finals []string) int {
@@ -573,6 +657,13 @@ func enumerate(r *runner, maxlen, ncor int) {
 		ext(action{op: "ret", vals: valsFor(i)}, created, hasTbc)
 		ext(action{op: "e", vals: []int64{int64(100 + i)}}, created, hasTbc)
 		if created > 0 {
+			// to-be-closed guards in inner frames (inside pcall / a nested function) of whichever thread runs
+			if !memctx {
+				ext(action{op: "pyt", vals: valsFor(i)}, created, true)
+			}
+			ext(action{op: "fy", vals: valsFor(i)}, created, true)
+			ext(action{op: "pge", vals: []int64{int64(300 + i)}}, created, hasTbc)
+			ext(action{op: "fe", vals: []int64{int64(400 + i)}}, created, hasTbc)
 			ext(action{op: "pe", vals: []int64{int64(200 + i)}}, created, hasTbc)
 			ext(action{op: "iy"}, created, hasTbc)
 			if !hasTbc && !memctx {
@@ -613,8 +704,24 @@ func random(r *runner, count, maxlen int) {
 				a = action{op: "s", k: 1 + rng.Below(created)}
 			case c < 78:
 				a = action{op: "y", vals: valsFor(int(rng.Below(30)))}
-			case c < 83 && !memctx:
+			case c < 82 && !memctx:
 				a = action{op: "py", vals: valsFor(int(rng.Below(30)))}
+			case c < 85 && created > 0:
+				switch rng.Below(4) {
+				case 0:
+					if memctx {
+						a = action{op: "fy", vals: valsFor(int(rng.Below(30)))}
+					} else {
+						a = action{op: "pyt", vals: valsFor(int(rng.Below(30)))}
+					}
+					hasTbc = true
+				case 1:
+					a, hasTbc = action{op: "fy", vals: valsFor(int(rng.Below(30)))}, true
+				case 2:
+					a = action{op: "pge", vals: []int64{int64(300 + i)}}
+				default:
+					a = action{op: "fe", vals: []int64{int64(400 + i)}}
+				}
 			case c < 89:
 				a = action{op: "ret", vals: valsFor(int(rng.Below(30)))}
 			case c < 93:
